@@ -122,7 +122,11 @@ class ArchNode(EvalableModel):
 
         if hasattr(self, "name"):
             yield self, _parents
-            _parents.append(self)
+            # A Compute ends its own branch: it is not above the nodes that follow it
+            from accelforge.frontend.arch.components import Compute
+
+            if not isinstance(self, Compute):
+                _parents.append(self)
 
         # Fork -> don't update the _parents list from MY parent because we're branching
         # off
